@@ -2,19 +2,79 @@
 import json, os
 V = os.path.dirname(os.path.dirname(os.path.abspath(__file__)))
 BASE_CMD = "cd /repo && /venv/bin/python -m pytest -ra -q -p no:cacheprovider --timeout=900 --continue-on-collection-errors"
+TB = ("Trusted: Coq 8.16.1 kernel + vm_compute; the fail-closed Python-ast -> Gallina translator (harness/translate); "
+      "the Python-semantics library Num/PyNum.v, Num/F64.v; hand-written models in coq/Model, coq/Ext (tied to the code by "
+      "differential runs evaluated inside Coq, sampled); pandas / joblib / py_stringmatching / CPython are modelled, not verified; "
+      "Cython twins not built, not modelled. ")
+AX = "Axioms (Print Assumptions): the stdlib real-number axioms through Flocq (sig_forall_dec, sig_not_dec, functional_extensionality_dep, classic) "
 CLAIMED = {
- 'C01': dict(text="Machine-checked proofs (Coq 8.16) about a model of the join pipeline whose arithmetic is regenerated from filter_utils.py on every run: prefix-filter lemma, position-filter loop invariant, size/overlap/prefix arithmetic over all doubles in the envelope; the hand-written parts of the model are tied to the code by evaluating model and declarative completeness spec inside Coq on whole join calls.",
-             note="Trusted: Coq kernel+vm_compute, translator, PyNum Python-semantics library, hand models (tied by differential runs), real-number axioms through Flocq for the arithmetic lemmas. Envelope 2^-30<=t<=1, sizes<2^20. Cython path not modelled.",
-             technique="Coq proof (Flocq arithmetic + list combinatorics) over translated formulas; in-Coq evaluation of model and spec on implementation output", ref="6 C01"),
+ 'C01': dict(ref='6 C01',
+   text="Coq theorems: for all five set-similarity joins the API-level model (dropna, min(n_jobs,rows), GENERATED split_table, per-chunk core, concat, missing pairs) returns every qualifying pair (C01_api, C01_api_total), resting on: prefix-filter lemma on sorted lists, position-filter loop invariant, size/overlap/prefix arithmetic of the GENERATED filter_utils formulas over all doubles in the envelope (Flocq), injectivity of the token ranking, the partition property of the generated split_table. Tie to the code: translator regenerates the formulas/helpers each run; Model/Api.v and complete_spec are evaluated inside Coq on whole join calls of the implementation.",
+   note=TB + AX + "for the J/C/D arithmetic and split_table; OVERLAP / OVERLAP_COEFFICIENT parts closed. Envelope: 2^-30<=t<=1, token counts < 2^20, rows < 2^31, duplicate-free token lists (set tokenizer).",
+   technique="Coq proof (Flocq arithmetic over translated formulas + list combinatorics + API-level refinement); in-Coq evaluation of model and completeness spec on implementation output"),
+ 'C02': dict(ref='6 C02',
+   text="Coq theorems: every row of the API-level model's result names existing keys, occurs once per key pair, satisfies the comparison with the similarity recomputed from the two token sets and carries that score (rounded for J/C/D, unrounded for overlap coefficient, integer overlap for overlap_join, 1.0 for admitted empty pairs) (C02_api and the pair/core-level theorems). Tie: sound_spec and the model evaluated inside Coq on whole join calls.",
+   note=TB + "Pair-level soundness (C02_pair_jcd) is closed under the global context; the API-level statement inherits the real-number axioms from the totality/partition part.",
+   technique="Coq proof (list reasoning, rank injectivity, API-level refinement); in-Coq evaluation of model and soundness spec on implementation output"),
+ 'C03': dict(ref='6 C03',
+   text="Coq theorems about the edit-distance join core: sound (reported score is the Levenshtein distance, proved equal to the declarative lev_spec; comparison holds), each key pair once, and EXACT characterisation for q-gram rows (returned iff distance satisfies the comparison and the bags share a q-gram) for every q>=1, padded or not; padded corollary max(len) >= q*tau-q+2; rests on the q-gram count filter (one edit destroys at most q q-grams) and the prefix lemma on sorted bags. Tie: generated EDIT_DISTANCE formulas; complete_spec/sound_spec and the model evaluated inside Coq on edit_distance_join calls.",
+   note=TB + "All C03 theorems are closed under the global context (integer/list reasoning). API-level lift for edit distance: see level text of C10/C08 and DESIGN.md.",
+   technique="Coq proof (Levenshtein edit scripts, q-gram count filter, prefix lemma on bags); in-Coq evaluation of model and specs on implementation output"),
+ 'C04': dict(ref='6 C04',
+   text="Coq theorems: filter_pair of Size/Prefix/Position never drops a qualifying pair under JACCARD/COSINE/DICE (all doubles in the envelope), OVERLAP (integer thresholds) and EDIT_DISTANCE (q-gram bags, incl. PositionFilter with its frozen left position), the filter_tables candidate tests likewise for any table-level token order; OverlapFilter exact. SuffixFilter: the full-strength statement is REFUTED on the model (C04_suffix_refuted, witness replayed on the real SuffixFilter = known finding). Tie: generated formulas; fp_safe_spec / complete_spec and models evaluated inside Coq on filter_pair, filter_tables and filter_candset calls.",
+   note=TB + AX + "for the J/C/D arithmetic only. SuffixFilter safety is a known finding (known_findings.json: suffix-filter-unsafe).",
+   technique="Coq proof (Flocq arithmetic over translated formulas, prefix/position lemmas on sets and bags) + refutation witness; in-Coq evaluation of models and specs on implementation output"),
+ 'C05': dict(ref='6 C05',
+   text="Coq theorems on the row-wise model of apply_matcher with sim_function, tokenizer and score type as arbitrary section variables: result = candidate rows filtered in order, original _id and keys, score = sim_function value, six operators, missing rows kept iff allow_missing with NaN. Tie: the model is evaluated inside Coq on independently computed sim_function values and compared (order, _id, keys, score) with whole apply_matcher calls incl. both token-cache paths and n_jobs variants.",
+   note=TB + "Closed under the global context. n_jobs independence of the model uses the split_table partition theorem (C10). Pickling of bound methods across real processes is runtime behaviour: exercised by the thorough tier only.",
+   technique="Coq proof (list reasoning over a parametric model); in-Coq evaluation of the model on implementation output"),
+ 'C06': dict(ref='6 C06',
+   text="Coq theorems: filter_candset = positions of the rows whose pair filter_pair keeps, in order (filter_pair arbitrary); OverlapFilter.filter_pair keeps a pair iff both strings non-empty and overlap satisfies comp_op; OverlapFilter.filter_tables lists exactly those pairs once with score = overlap (set tokenizer). Tie: candset model, fp_overlap_exact_spec, sound_spec/complete_spec evaluated inside Coq on real calls (index labels and columns compared).",
+   note=TB + "Closed under the global context.",
+   technique="Coq proof (list reasoning); in-Coq evaluation of models and specs on implementation output"),
+ 'C08': dict(ref='6 C08',
+   text="Coq theorems on the API-level model (every join and filter_tables): allow_missing=False -> no output row involves a row with a missing value; allow_missing=True -> same success, result = the False result ++ the missing pairs, each pair with a missing side exactly once with NaN score (missing_spec for every entry, any n_jobs); apply_matcher rows with a missing side kept iff allow_missing. Tie: both allow_missing values run on every forced pattern of missing values (none/left only/right only/both/all), specs evaluated inside Coq; an exception is a violation.",
+   note=TB + "C08_exactly_once inherits the real-number axioms from the split_table partition theorem; the rest is closed.",
+   technique="Coq proof (API-level refinement, list reasoning); in-Coq evaluation of specs on implementation output"),
+ 'C09': dict(ref='6 C09',
+   text="Coq theorems: on the API-level model of the five set-similarity joins a both-empty pair is returned iff allow_empty (never by overlap_join), with score 1.0, and a pair with exactly one empty side never, for every threshold/operator/n_jobs (C09_joins); filter_pair of Size/Prefix/Position/Suffix keeps two empty token lists iff allow_empty (never under OVERLAP) whatever the threshold (C09_filter_pair). Tie: empty_spec / fp_empty_spec / sound_spec evaluated inside Coq on joins, filter_tables and filter_pair calls over tables salted with empty, delimiter-only and too-short strings.",
+   note=TB + AX + "(J/C/D totality). filter_tables empty-pair clause at API level: by correspondence + empty_spec (theorem pending, see DESIGN.md).",
+   technique="Coq proof (API-level refinement) ; in-Coq evaluation of specs on implementation output"),
+ 'C11': dict(ref='6 C11',
+   text="Coq theorems about the projection pipeline composed from the helper functions GENERATED from utils/generic_helper.py (remove_redundant_attrs, get_attrs_to_project, find_output_attribute_indices, get_output_header_from_tables, get_output_row_from_tables): header = documented columns; every projected cell = cell of that attribute in the source row, on the main path and the missing-value path, for None / [] / lists with key, join attribute and repeats. Tie: regenerated each run; header_ok / cells_ok and the generated pipeline evaluated inside Coq on observed frames.",
+   note=TB + "Closed under the global context. pandas' own projection df[cols] / dropna / DataFrame(rows, columns) are modelled (first column of a name).",
+   technique="Coq proof over translated helper functions; in-Coq evaluation of model and spec on implementation output"),
+ 'C12': dict(ref='6 C12',
+   text="Coq theorems over the control skeletons and mutation summaries REGENERATED from the AST of every entry point: every exit (return or raise, any outcome of validations and early returns) hands the tokenizer flag back as received; hence any call sequence sharing a tokenizer returns what each call returns in isolation; every in-place operation targets a fresh object except the converters' documented inplace mode. Tie: translator (fail-closed) + random call histories on the real API comparing inputs/tokenizer with snapshots and results with isolated runs.",
+   note=TB + "Closed under the global context. Non-mutation of pandas objects is a syntactic effect summary plus harness snapshots; pandas aliasing is not modelled.",
+   technique="Coq proof by reflection over regenerated control skeletons; differential call-history runs"),
+ 'C14': dict(ref='6 C14',
+   text="Coq theorems: SizeFilter's verdict is a function of the two counts; counts inside the window leave best attainable similarity >= t - 1e-4 over the reals, hence every pair further below is dropped (J/C/D, all doubles in the envelope, counts < 2^20); edit distance: dropped iff counts differ by more than the threshold; Prefix/Position/Overlap filters keep no pair without a common token (any parameters); Position candidates are Prefix candidates and pass the Size window. Tie: generated formulas; size_tight_spec, fp_common_token_spec, sound_spec, refine_filters_spec evaluated inside Coq on real filter calls (exhaustive count grid in the thorough tier).",
+   note=TB + AX + "for the tightness arithmetic; structural parts closed.",
+   technique="Coq proof (Flocq real arithmetic over translated formulas, loop invariants); in-Coq evaluation of specs on implementation output"),
+ 'C15': dict(ref='6 C15',
+   text="Coq theorems over regenerated artefacts: in every entry point all validations precede all work (a rejected call has done nothing, tokenizer flag untouched); the generated validate_threshold / validate_comp_op accept exactly the documented ranges and operator sets. Tie: translator + the matrix entry point x invalid argument kind x random valid context on the real API (exception class, inputs and tokenizer unchanged), and degenerate valid shapes with object and pandas string dtype returning DataFrames.",
+   note=TB + "Closed under the global context. 'Valid calls never rejected' is decided by the harness (totality of the hand model is proved for the join entries: C01_api_total).",
+   technique="Coq proof by reflection over regenerated skeletons/validators; differential API matrix runs"),
 }
-NOT_YET = {}
-for i in range(1, 18):
-    pid = 'C%02d' % i
-    if pid not in CLAIMED:
-        NOT_YET[pid] = 'check not built yet in this snapshot (work in progress; see DESIGN.md section 6)'
+REASONS = {
+ 'C07': 'check being assembled in this snapshot: pipeline correspondence exists (harness/corr_meta.py run_pipeline), closing theorem pending',
+ 'C10': 'check being assembled in this snapshot: n_jobs/permutation correspondence exists (harness/corr_meta.py run_njobs), closing theorems pending',
+ 'C13': 'check being assembled in this snapshot: metamorphic correspondence exists (harness/corr_meta.py run_laws), closing theorems pending',
+ 'C16': 'check being assembled in this snapshot: converter model/proofs delivered, integration pending',
+ 'C17': 'check being assembled in this snapshot: profiler model/proofs delivered, integration pending',
+}
 def main():
+    import sys
+    extra = {}
+    if os.path.exists(os.path.join(V, 'harness', 'manifest_extra.py')):
+        sys.path.insert(0, os.path.join(V, 'harness'))
+        import manifest_extra
+        extra = manifest_extra.CLAIMED
+    claimed = dict(CLAIMED)
+    claimed.update(extra)
     checks = []
-    for pid, d in sorted(CLAIMED.items()):
+    for pid, d in sorted(claimed.items()):
         checks.append({
             'property_id': pid,
             'quick_cmd': './check %s --tier quick' % pid,
@@ -26,18 +86,20 @@ def main():
             'level_note': d['note'],
             'technique': d['technique'],
         })
+    na = [{'property_id': 'C%02d' % i, 'reason': REASONS.get('C%02d' % i, 'not claimed')}
+          for i in range(1, 18) if 'C%02d' % i not in claimed]
     m = {
         'version': 1,
         'setup_cmd': './check --setup',
         'hooks': {'guard': 'PY_STRINGSIMJOIN_VERIF', 'enable': 'no hooks are needed: the harness imports the pure-Python entry points directly; the guard name is reserved and exported by ./check',
                   'baseline_off_cmd': BASE_CMD, 'source_commits': [], 'add_only': True},
         'engines': [
-            {'name': 'coq-proofs', 'path': 'coq/', 'serves_properties': sorted(CLAIMED), 'kind_free_text': 'Coq 8.16.1 development: models, specs, proofs; Properties/Cxx.v hold the closing theorems'},
-            {'name': 'translator', 'path': 'harness/translate/', 'serves_properties': sorted(CLAIMED), 'kind_free_text': 'fail-closed Python ast -> Gallina translator regenerating coq/Gen on every run'},
-            {'name': 'correspondence', 'path': 'harness/', 'serves_properties': sorted(CLAIMED), 'kind_free_text': 'differential runs: model and specs evaluated inside Coq (vm_compute) on the implementation\'s observed behaviour'},
+            {'name': 'coq-proofs', 'path': 'coq/', 'serves_properties': sorted(claimed), 'kind_free_text': 'Coq 8.16.1 development: models, specs, proofs; Properties/Cxx.v hold the closing theorems'},
+            {'name': 'translator', 'path': 'harness/translate/', 'serves_properties': sorted(claimed), 'kind_free_text': 'fail-closed Python ast -> Gallina translator regenerating coq/Gen on every run'},
+            {'name': 'correspondence', 'path': 'harness/', 'serves_properties': sorted(claimed), 'kind_free_text': 'differential runs: model and specs evaluated inside Coq (vm_compute) on the implementation\'s observed behaviour'},
         ],
         'checks': checks,
-        'not_applicable': [{'property_id': k, 'reason': v} for k, v in sorted(NOT_YET.items())],
+        'not_applicable': na,
         'notes': 'All checks rebuild from /repo\'s working tree: coq/Gen is regenerated and the implementation is imported from /repo.',
     }
     json.dump(m, open(os.path.join(V, 'MANIFEST.json'), 'w'), indent=1)
